@@ -187,6 +187,11 @@ def run(ctx):
     run_histories(ctx, "random-histories", random_histories(rnd, 1500 if thorough else (60 if ctx.prop == "C15" else 120)))
     run_histories(ctx, "exhaustion", exhaustion_histories(rnd, thorough))
     spec_written_images(ctx, rnd, 600 if thorough else 60)
+    if ctx.prop == "C08":
+        # images written through the host path (VirtualFile / file_util), in particular by commands that store several large files and run out of room half way
+        from harness.props import c09, c10
+        t1 = time.time()
+        c10.judge(ctx, "overflow-conversions", c10.replay_histories(c09.overflow_histories(rnd, thorough)), t1, own=c10.OWN["C08"])
     if ctx.prop == "C15":
         # host level: a file that does not fit fails with an error and the host file is left as it was
         from harness.props import c09
